@@ -49,7 +49,8 @@ MAL = ['none', 'non-trashinfo-file', 'empty-info', 'truncated', 'binary', 'non-u
        'unreadable-dir-entry', 'no-date-same-path', 'invalid-date-same-path', 'date-with-utc-offset', 'date-with-Z', 'date-with-fraction',
        'editor-backup-of-a-good-info', 'stale-copy-of-a-good-info', 'temporary-file-with-a-good-stem',
        'path-with-truncated-utf8-escape', 'path-with-invalid-utf8-escape',
-       'empty-info-named-with-format-characters', 'no-path-named-with-braces']
+       'empty-info-named-with-format-characters', 'no-path-named-with-braces',
+       'path-key-with-an-empty-value', 'truncated-right-after-the-path-key']
 NMAL = len(MAL)
 ORDER = ['insertion', 'reverse']
 TDS = ['/v/.Trash-1000', '/h/.local/share/Trash', '/v/.Trash/1000']
@@ -117,6 +118,10 @@ def mal_nodes(mk, td):
         return [W.f(i + 'My%20Notes 100%.trashinfo', '', 0o600, 4000), W.f(f + 'My%20Notes 100%', 'M', 0o644, 4001)]
     if k == 'no-path-named-with-braces':
         return [W.f(i + 'm{0}{x}%s.trashinfo', '[Trash Info]\nDeletionDate=2020-01-01T00:00:00\n', 0o600, 4000), W.f(f + 'm{0}{x}%s', 'M', 0o644, 4001)]
+    if k == 'path-key-with-an-empty-value':
+        return [W.f(i + 'm.trashinfo', '[Trash Info]\nPath=\nDeletionDate=2020-01-01T00:00:00\n', 0o600, 4000), W.f(f + 'm', 'M', 0o644, 4001)]
+    if k == 'truncated-right-after-the-path-key':  # (what a write cut short leaves)
+        return [W.f(i + 'm.trashinfo', '[Trash Info]\nPath=', 0o600, 4000), W.f(f + 'm', 'M', 0o644, 4001)]
     if k == 'unreadable-dir-entry':
         return [W.l(i + 'loop.trashinfo', 'loop.trashinfo', 4000)]
     raise ValueError(k)
@@ -174,8 +179,10 @@ def run_one(mk, order, tdi, cmd, with_mal):
 
 def restrict_lines(text):
     # well-formed entries are always dated: an undated line can only be about the malformed neighbour
+    # (an empty Path value designates the top directory itself: such a line is about the malformed neighbour)
     return sorted(ln for ln in text.split('\n') if ln and not any(mk in ln + '\n' for mk in MAL_MARKS)
-                  and 'What file to restore' not in ln and not ln.startswith('????-??-??'))
+                  and 'What file to restore' not in ln and not ln.startswith('????-??-??')
+                  and not ln.endswith((' /v/', ' /', ' /v/ -> /v/.Trash-1000/files/m', ' /v/ -> /v/.Trash/1000/files/m', ' / -> /h/.local/share/Trash/files/m')))
 
 
 def good_state(snap, td, base):
@@ -238,5 +245,5 @@ def obligations(tier):
            encodes=['trashcli.restore.sort_method.sort_files', 'sorter_for'], bounds='3 entries, symbolic presence of each date, symbolic sharing of original paths, 3 sort modes'),
         CH('W_neighbour_x_order_x_dir_x_cmd', MOD, 'w_main', timeout=900, partitions=list(range(NCMD)), engine='W', regime='selector',
            encodes=K.LIST_FUNCS + K.RESTORE_FUNCS + K.RM_FUNCS + K.EMPTY_FUNCS, stubs=K.STUBS,
-           bounds='29 neighbours x 2 directory orders x 3 trash dirs x 10 command/argument combinations (incl. trash-list --size / --files)'),
+           bounds='31 neighbours x 2 directory orders x 3 trash dirs x 10 command/argument combinations (incl. trash-list --size / --files)'),
     ]
